@@ -23,34 +23,15 @@ SEND = r"^sync::Subscribers::send(_with)?$"
 VIEW_ENTRY = re.compile(mir.VIEW.pattern[:-2] + r"|entry)$")
 
 
-def _inserted_edge(b, put_bi):
-    """edges of the switch on put's InsertOutcome"""
-    for bi, blk in enumerate(b.blocks):
-        tt = blk["t"]
-        if tt["k"] != "switch" or tt["d"][0] not in ("copy", "move") or mir.is_noise(tt["x"]):
-            continue
-        ds = b.defs().get(tt["d"][1]["l"], [])
-        if len(ds) == 1 and ds[0][2] == "assign" and ds[0][3]["r"][0] == "discr":
-            pl = ds[0][3]["r"][1]
-            ty = b.locals[pl["l"]]["ty"]
-            if ty.endswith("ranger::InsertOutcome") and b.dominates(put_bi, bi):
-                edges = {}
-                for v, tb in tt["v"]:
-                    edges[v] = (bi, tb)
-                edges["otherwise"] = (bi, tt["o"])
-                return edges
-    return None
-
-
-def _ins_edge(f, b, put_bi):
+def _ins_edges(f, b, put_bi):
+    """edges on which put's outcome is InsertOutcome::Inserted (incl. matches!/if-let temporaries)"""
+    from .common import variant_edges
     IO = [v["name"] for v in f.adt("ranger::InsertOutcome")["variants"]]
     ins_idx = IO.index("Inserted")
-    edges = _inserted_edge(b, put_bi)
+    edges = [e for e in variant_edges(b, lambda ty: ty.endswith("ranger::InsertOutcome"), ins_idx) if b.dominates(put_bi, e[0])]
     if not edges:
-        raise mir.AnchorMissing("%s: match on put's InsertOutcome not found" % b.path)
-    if ins_idx in edges:
-        return edges[ins_idx]
-    return edges["otherwise"]
+        raise mir.AnchorMissing("%s: no test of put's InsertOutcome found" % b.path)
+    return edges
 
 
 def r1(ctx):
@@ -75,8 +56,8 @@ def r1(ctx):
     if len(puts) != 1 or len(sends) != 1:
         ctx.bad("C12.R1", IE, "one-put-one-send", "insert_entry has %d put and %d send sites" % (len(puts), len(sends)), ie.sp)
     else:
-        e = _ins_edge(f, ie, puts[0][0])
-        ok = ie.edge_dominates(e[0], e[1], sends[0][0])
+        es = _ins_edges(f, ie, puts[0][0])
+        ok = any(ie.edge_dominates(e[0], e[1], sends[0][0]) for e in es)
         ctx.check(ok, "C12.R1", IE, "send-dominated-by-Inserted", "the event is sent only on the Inserted edge of put's outcome (a superseded entry produces no event)", sends[0][1]["sp"])
     pm = f.body(PM)
     ctx.touch(pm)
@@ -85,8 +66,8 @@ def r1(ctx):
     vcalls = [(bi, t) for bi, t in pm.calls() if t["f"].get("name") == "call" and t["f"].get("full", "").startswith("<F as ")]
     if len(oic) != 1 or len(pputs) != 1 or len(vcalls) != 1:
         raise mir.AnchorMissing("process_message: expected one validate call, one put, one on_insert call (found %d/%d/%d)" % (len(vcalls), len(pputs), len(oic)))
-    e = _ins_edge(f, pm, pputs[0][0])
-    ctx.check(pm.edge_dominates(e[0], e[1], oic[0][0]), "C12.R1", PM, "on_insert-dominated-by-Inserted", "on_insert_cb is called only on the Inserted edge of put's outcome", oic[0][1]["sp"])
+    es = _ins_edges(f, pm, pputs[0][0])
+    ctx.check(any(pm.edge_dominates(e[0], e[1], oic[0][0]) for e in es), "C12.R1", PM, "on_insert-dominated-by-Inserted", "on_insert_cb is called only on the Inserted edge of put's outcome", oic[0][1]["sp"])
     ve = call_outcomes(pm, vcalls[0][0]).get("true")
     ctx.check(bool(ve) and pm.edge_dominates(ve[0], ve[1], pputs[0][0]), "C12.R1", PM, "put-dominated-by-validate", "put only after validate_cb returned true", pputs[0][1]["sp"])
     ctx.floor("C12.R1", 6)
@@ -104,8 +85,8 @@ def r2(ctx):
         ctx.check(len(sends) == 1, "C12.R2", path, "exactly-one-announce-site", "%d announce sites" % len(sends), b.sp)
         if len(sends) != 1:
             continue
-        e = _ins_edge(f, b, puts[0][0])
-        region = b.reach_from_edges([e[1]], avoid={sends[0][0]})
+        es = [e for e in _ins_edges(f, b, puts[0][0]) if b.edge_dominates(e[0], e[1], sends[0][0])] or _ins_edges(f, b, puts[0][0])
+        region = b.reach_from_edges([e[1] for e in es], avoid={sends[0][0]})
         exits = [x for x in region if b.blocks[x]["t"]["k"] == "return"]
         back = puts[0][0] in region
         ctx.check(not exits and not back, "C12.R2", path, "no-path-around-the-announce",
